@@ -21,11 +21,6 @@ contract("lib:copy.copy", trusted=True, pos_params=["x"], fresh_result="Step",
          ensures={"a-copy-of-x": "copy_of(result) is x and result.name == as_ref(x, 'Step').name and "
                                  "result.keyword == as_ref(x, 'Step').keyword and result.step_type == as_ref(x, 'Step').step_type"},
          doc="copy.copy(step): a new Step object with the same attribute values (A-lib)")
-contract("abs:Step.reset", trusted=True, params={"self": "ref:Step"}, pos_params=["self"],
-         modifies=["self.status", "self.hook_failed", "self.duration", "self.exception", "self.exc_traceback",
-                   "self.error_message", "self.captured"],
-         ensures={"status-reset": "self.status == Status.untested and self.hook_failed == False"},
-         doc="Step.reset(): status untested, no error information (proved with Step.run)")
 contract(M + "copy_steps", props=P, params={"steps": "seq:ref:Step"}, result="seq:ref:Step",
          ensures={"a-new-list-of-new-step-objects-in-the-same-order":
                   "is_fresh(result) and len(result) == len(steps) and "
